@@ -26,8 +26,19 @@ def majority_sites(ctx):
                         and c.args and P.self_attr(c.args[0], sn)]
                 if not lens:
                     continue
-                out.append((f, n, P.self_attr(lens[0].args[0], sn), sides[1 - i], th, lens[0]))
+                counter = sides[1 - i]
+                if isinstance(counter, ast.BinOp):
+                    # 2 * count > len(voters) + 1: the counter is the single name / attribute inside the other side
+                    atoms = [x for x in ast.walk(counter) if isinstance(x, ast.Name) or (isinstance(x, ast.Attribute) and P.self_attr(x, sn))]
+                    atoms = [x for x in atoms if not (isinstance(x, ast.Name) and x.id == sn)]
+                    if len(atoms) == 1 and not any(isinstance(c, ast.Call) for c in ast.walk(counter)):
+                        counter = atoms[0]
+                out.append((f, n, P.self_attr(lens[0].args[0], sn), counter, th, lens[0]))
     return out
+
+
+def counter_on_left(cmpn):
+    return 'len(' not in unparse(cmpn.left)
 
 
 def _iter_population(ctx, f, it):
@@ -311,11 +322,11 @@ def r_term_vote_writes(ctx):
             n = U.node_containing(cfg, st)
             term_nodes.append(n)
             inst = '%s: `%s`' % (f.qualname, unparse(st))
+            if U.increment_amount(P, f, st, R.currentTerm) is not None:
+                ctx.ok(inst, f.loc(st), 'increment')
+                continue
             if kind == 'aug':
-                if isinstance(st.op, ast.Add) and isinstance(st.value, ast.Constant) and isinstance(st.value.value, int) and st.value.value >= 1:
-                    ctx.ok(inst, f.loc(st), 'increment')
-                else:
-                    ctx.violation('%s:term-write' % f.qualname, f.loc(st), 'term changed by `%s` (not an increment)' % unparse(st), instance=inst)
+                ctx.violation('%s:term-write' % f.qualname, f.loc(st), 'term changed by `%s` (not an increment)' % unparse(st), instance=inst)
                 continue
             # assignment: must be adoption of a strictly larger term
             g = ('lt', ex.tb.term(U.parse_expr('self.%s' % R.currentTerm)), ex.tb.term(st.value))
@@ -403,7 +414,7 @@ def r_leader_entry(ctx):
                     via_true = n.id in cfg.reachable_from(t_target[0], avoid=[cn.id]) if t_target else False
                     via_false = n.id in cfg.reachable_from(f_target[0], avoid=[cn.id]) if f_target else False
                     op = mc.ops[0]
-                    counter_left = not isinstance(mc.left, ast.BinOp)
+                    counter_left = counter_on_left(mc)
                     says_majority_when_true = (isinstance(op, (ast.Gt, ast.GtE)) and counter_left) or (isinstance(op, (ast.Lt, ast.LtE)) and not counter_left)
                     if (via_true and not via_false and says_majority_when_true) or (via_false and not via_true and not says_majority_when_true):
                         dom_ok = True
@@ -429,7 +440,7 @@ def r_leader_entry(ctx):
                 ctx.ok(inst, f.loc(call), 'behind majority test; CANDIDATE, response_vote, term equality entailed')
         else:
             # tick site: right after the self vote (term increment dominates the call)
-            incs = [U.node_containing(cfg, st) for st, k in U.assigns_to_attr(P, f, R.currentTerm) if k == 'aug']
+            incs = [U.node_containing(cfg, st) for st in U.increments_of(P, f, R.currentTerm)]
             ok = False
             for inc in incs:
                 if n.id not in cfg.reachable_from(cfg.entry.id, avoid=[inc.id]):
